@@ -11,7 +11,14 @@ W12 == {1, 2}
 W123 == {1, 2, 3}
 WDeg == {0 - 200, 0, 1}
 WAll == {0 - 200, 0, 1, 2}
-WCh == {0 - 1, 0, 4, 40}
+\* weighted consistent hash: no points for a weight <= 0; 1 and 3 stand for the small positive weights (fewer
+\* than one round of four points: still eligible), 4 for the others
+WCh == {0 - 1, 0, 1, 3, 4}
+\* mixed weight types: static weights apply only while every member is of the static type
+WMix == {0, 1, 2}
+TStatic == {1}
+TBoth == {0, 1}
+SAll == {"rr", "random", "modhash", "conhash"}
 BoolBoth == {FALSE, TRUE}
 OnlyFalse == {FALSE}
 OnlyTrue == {TRUE}
